@@ -632,4 +632,59 @@ theorem inv_reachable {s : State} (h : Reachable s) : Inv s := by
   obtain ⟨ls, rfl⟩ := h
   exact inv_run inv_init ls
 
+/-- In a quiescent state every cell, at any depth, holds the root's value and closed flag (induction on depth). -/
+theorem quiescent_cell {s : State} (hinv : Inv s) (hq : Quiescent s) :
+    ∀ (k : Nat) (c : Nat) (cell : Cell), s.cells[c]? = some cell → (cell.depth - rootDepth s).toNat = k →
+      cell.val = lastSent s ∧ cell.closed = !s.senderAlive := by
+  intro k
+  induction k using Nat.strongRecOn with
+  | ind k ih =>
+    intro c cell hc hk
+    obtain ⟨rc, hrc, hrp, hrcl⟩ := hinv.rootOk
+    cases hp : cell.parent with
+    | none =>
+      have := hinv.parentNone c cell hc hp
+      subst this
+      rw [hc] at hrc; cases hrc
+      exact ⟨(lastSent_eq hc).symm, hrcl⟩
+    | some p =>
+      obtain ⟨pc, hpc, hd, hl⟩ := hinv.parentSome c cell p hc hp
+      have hdp := (hinv.leRoot p pc hpc).2
+      have ihp := ih (pc.depth - rootDepth s).toNat (by omega) p pc hpc rfl
+      -- what quiescence says about this hop
+      have q1 := hq (.fwdSend c) rfl
+      have q2 := hq (.store c) rfl
+      have q3 := hq (.fwdTake c) rfl
+      have q4 := hq (.fwdExit c) rfl
+      have q5 := hq (.storeEof c) rfl
+      simp only [step, hc, hp, hpc] at q1 q2 q3 q4 q5
+      have hh : cell.hold = none := by
+        cases hh : cell.hold with
+        | none => rfl
+        | some v => simp [hh] at q1
+      have hw : cell.wire = [] := by
+        cases hw : cell.wire with
+        | nil => rfl
+        | cons v rest => simp [hw] at q2
+      simp only [hh, hw] at q3 q4 q5
+      have hlq := link_quiescent hl hh hw
+        (by
+          cases hfd : cell.fdone with
+          | true => exact Or.inl rfl
+          | false =>
+            right
+            by_cases hv : pc.ver = cell.fseen
+            · exact hv
+            · simp [hfd, hv] at q3)
+        (by
+          rintro ⟨hfd, hv, hcl⟩
+          simp [hfd, hv, hcl] at q4)
+        (by
+          intro hfd
+          cases hcl : cell.closed with
+          | true => rfl
+          | false => simp [hfd, hcl] at q5)
+      exact ⟨hlq.1.trans ihp.1, hlq.2.trans ihp.2⟩
+
+
 end Remoc.Watch
